@@ -127,7 +127,7 @@ def observe(P, seed, n_cases):
             except BaseException as e:  # noqa: BLE001
                 row["nraised"] = True
                 row["nerr"] = (pr.errclass(e) + ": " + str(e))[:160]
-                row["noccupied"] = isinstance(e, KeyError) and "already occupied" in str(e)
+                row["noccupied"] = isinstance(e, KeyError)     # the stub of an input got another id: "already occupied" or missing later
             pref = c.qualname + "."
             given = {id_of[j] for j in ins}
             row["nexec"] = sorted([list(inv[i[len(pref):]]) for i in rec2.entered
@@ -319,7 +319,7 @@ def replay(payload, log=common.say):
                 _verif.sink = None
         except BaseException as e:  # noqa: BLE001
             new["nraised"] = True
-            new["noccupied"] = isinstance(e, KeyError) and "already occupied" in str(e)
+            new["noccupied"] = isinstance(e, KeyError)     # the stub of an input got another id: "already occupied" or missing later
             log(f"nested call failed: {e!r}")
         pref = c.qualname + "."
         given = {id_of[j] for j in row["ins"]}
